@@ -399,7 +399,7 @@ func genCase(t *rapid.T) Case {
 	var c Case
 	if rapid.IntRange(0, 19).Draw(t, "mixedmag") == 13 {
 		c = genMixedMagnitudes(t)
-		c.Extra = rapid.SampledFrom([]int{0, 0, 1, 2}).Draw(t, "extra")
+		c.Extra = rapid.SampledFrom([]int{0, 0, 1, 2, 3}).Draw(t, "extra")
 		return c
 	}
 	if k := rapid.IntRange(0, 9).Draw(t, "float"); k == 9 {
@@ -413,7 +413,7 @@ func genCase(t *rapid.T) Case {
 	} else {
 		c = genInt(t)
 	}
-	c.Extra = rapid.SampledFrom([]int{0, 0, 1, 2}).Draw(t, "extra")
+	c.Extra = rapid.SampledFrom([]int{0, 0, 1, 2, 3}).Draw(t, "extra")
 	return c
 }
 
@@ -430,6 +430,8 @@ func coi(c Case, i int) geom.Coord {
 		for k := 0; k < []int{0, 1, 2, 0}[i]; k++ {
 			out = append(out, float64(10*i+k)+0.5)
 		}
+	case 3: // a Z that is not a number, an M that is infinite (the intersector works in x and y)
+		out = append(out, math.NaN(), math.Inf(1-2*(i%2)))
 	}
 	return out
 }
